@@ -20,6 +20,15 @@ import itertools
 import sympy as sp
 
 from ..core import norm, calls_in, kwarg, string_dispatch, AnalysisError
+_MOD = [None]
+
+
+def _ev(*a, **k):
+    ev = SymEval(*a, **k)
+    ev.module = _MOD[0]
+    return ev
+
+
 from ..symx import SymEval, Path, SymObj, Opaque, WouldRaise, is_zero
 from .. import dims
 from ..dims import F
@@ -62,7 +71,7 @@ def working_units(ctx):
                     nu.attrs[k] = sp.Integer(1)
             nu.attrs['reset_units'] = reset
             nu.attrs['set_derived_units_and_constants'] = lambda: None
-            ev = SymEval({'nu': 'numericalunits'})
+            ev = _ev({'nu': 'numericalunits'})
             env = {'seed': None, 'kwargs': {q: '<%s>' % q for q in chosen}, 'nu': nu, 'unit': unit, 'build_unit': build_unit}
             try:
                 paths = ev.run_fn(fn, env=env)
@@ -82,7 +91,7 @@ def working_units(ctx):
                    '; '.join(bad), node=fn, key='subset ' + '+'.join(chosen))
     ctx.floor('WORKING-UNITS', n, 29)
     # over-determined and seed conflicts are refused
-    ev = SymEval({'nu': 'numericalunits'})
+    ev = _ev({'nu': 'numericalunits'})
     env = {'seed': None, 'kwargs': {q: q for q in quantities}, 'nu': SymObj(None, {'reset_units': lambda *a: None, 'set_derived_units_and_constants': lambda: None}, 'nu'),
            'unit': {}, 'build_unit': lambda: None}
     try:
@@ -93,7 +102,7 @@ def working_units(ctx):
         ok = False
     ctx.ob('WORKING-UNITS', loc, 'five named working units (over-determined) are refused', ok, node=fn)
     env = {'seed': 3, 'kwargs': {'length': 'x'}, 'nu': env['nu'], 'unit': {}, 'build_unit': lambda: None}
-    paths = SymEval({'nu': 'numericalunits'}).run_fn(fn, env=env)
+    paths = _ev({'nu': 'numericalunits'}).run_fn(fn, env=env)
     ctx.ob('WORKING-UNITS', loc, 'a seed together with named working units is refused', all(p.done == 'raise' for p in paths), node=fn)
 
 
@@ -186,11 +195,11 @@ def inverse_pair(ctx):
     mod = ctx.mod(UC)
     setf, getf = ctx.fn(UC, 'set_in_units'), ctx.fn(UC, 'get_in_units')
     P, v = sp.Symbol('P', positive=True), sp.Symbol('v')
-    ev = SymEval({'np': 'numpy'}, funcs={'parse': None})
+    ev = _ev({'np': 'numpy'}, funcs={'parse': None})
     ev.funcs.pop('parse')
 
     def run(fn, val):
-        e = SymEval({'np': 'numpy'})
+        e = _ev({'np': 'numpy'})
         env = e.bind(fn, [val, 'U'], {})
         env['parse'] = lambda u: P
         paths = e.run_fn(fn, env=env)
@@ -203,7 +212,7 @@ def inverse_pair(ctx):
     ctx.ob('INVERSE-PAIR', UC + '::set_in_units', 'set_in_units multiplies by the parsed factor', is_zero(s - v * P), 'set = %s' % s, node=setf)
     parse = ctx.fn(UC, 'parse')
     for arg in (None, 'scaled'):
-        e = SymEval({'np': 'numpy'})
+        e = _ev({'np': 'numpy'})
         try:
             paths = e.run_fn(parse, [arg], {})
             live = [p for p in paths if p.done == 'return']
@@ -212,7 +221,7 @@ def inverse_pair(ctx):
             ok = False   # the argument is no longer answered by the neutral-factor test: it reaches the tokenizer
         ctx.ob('INVERSE-PAIR', UC + '::parse', 'parse(%r) is the neutral factor 1' % (arg,), ok, node=parse, key='parse neutral %r' % (arg,))
     # a number passes through unchanged
-    e = SymEval({'np': 'numpy'})
+    e = _ev({'np': 'numpy'})
     x = sp.Symbol('x')
     env = {'units': x, 'isinstance': lambda a, b: False}
     try:
@@ -240,7 +249,7 @@ def precedence(ctx):
     red_start = body.index(whiles[1])
     reduction = body[red_start:]
     # --- reduction semantics on symbolic operands
-    ev = SymEval()
+    ev = _ev()
     ops = ['*', '/', '^']
     npat = 0
     bad = []
@@ -357,9 +366,82 @@ def model_keys(ctx):
     ctx.ob('MODEL-KEYS', loc, 'arrays of rank >= 2 are stored flattened together with their shape', ok, node=sh[0] if sh else model)
 
 
+def _always(stmts, pred):
+    """every syntactic path through stmts executes a statement satisfying pred (loops count as possibly skipped)"""
+    for st in stmts:
+        if pred(st):
+            return True
+        if isinstance(st, ast.If) and _always(st.body, pred) and _always(st.orelse, pred):
+            return True
+        if isinstance(st, ast.Try) and (_always(st.body, pred) or _always(st.finalbody, pred)):
+            return True
+        if isinstance(st, ast.With) and _always(st.body, pred):
+            return True
+        if isinstance(st, ast.Raise):
+            return True     # a refusing path changes nothing
+        if isinstance(st, ast.Return):
+            return False
+    return False
+
+
+def derived_state(ctx):
+    """conversion factors depend on the working units: any module-level container the conversion functions fill (a memo of parsed
+    factors, a derived table) must be cleared or rebuilt on every path of reset_units, else a factor computed under the old units survives"""
+    mod = ctx.mod(UC)
+    loc = UC + '::reset_units'
+    reset = ctx.fn(UC, 'reset_units')
+    conts = {}
+    for st in mod.body:
+        if isinstance(st, ast.Assign) and len(st.targets) == 1 and isinstance(st.targets[0], ast.Name) and (
+                isinstance(st.value, (ast.Dict, ast.List, ast.Set)) or (isinstance(st.value, ast.Call) and norm(st.value.func) in ('dict', 'list', 'set', 'OrderedDict', 'DM'))):
+            conts[st.targets[0].id] = st
+    # tables created inside a function through `global NAME; NAME = {...}` (the unit table itself)
+    for f in [x for x in mod.body if isinstance(x, ast.FunctionDef)]:
+        gl = {g for st in ast.walk(f) if isinstance(st, ast.Global) for g in st.names}
+        for st in ast.walk(f):
+            if isinstance(st, ast.Assign) and len(st.targets) == 1 and isinstance(st.targets[0], ast.Name) and st.targets[0].id in gl and isinstance(st.value, (ast.Dict, ast.List, ast.Call)):
+                conts.setdefault(st.targets[0].id, st)
+    writers = {}
+    for f in [x for x in mod.body if isinstance(x, ast.FunctionDef) and x.name not in ('reset_units',)]:
+        for x in ast.walk(f):
+            tgt = None
+            if isinstance(x, (ast.Assign, ast.AugAssign)):
+                for t in (x.targets if isinstance(x, ast.Assign) else [x.target]):
+                    if isinstance(t, ast.Subscript) and isinstance(t.value, ast.Name):
+                        tgt = t.value.id
+            elif isinstance(x, ast.Call) and isinstance(x.func, ast.Attribute) and isinstance(x.func.value, ast.Name) and x.func.attr in ('append', 'update', 'setdefault', 'add', 'extend', 'insert'):
+                tgt = x.func.value.id
+            if tgt in conts:
+                writers.setdefault(tgt, set()).add(f.name)
+    # functions called (by name) on every path of reset_units that rebuild a container count as a reset of it
+    rebuilders = {}
+    for f in [x for x in mod.body if isinstance(x, ast.FunctionDef)]:
+        for name in conts:
+            if name in writers and f.name in writers[name]:
+                rebuilders.setdefault(f.name, set()).add(name)
+    n = 0
+    for name, fs in sorted(writers.items()):
+        n += 1
+
+        def is_reset(st, name=name):
+            for x in ast.walk(st) if isinstance(st, (ast.Expr, ast.Assign)) else []:
+                if isinstance(x, ast.Call) and norm(x.func) == name + '.clear':
+                    return True
+                if isinstance(x, ast.Call) and isinstance(x.func, ast.Name) and name in rebuilders.get(x.func.id, ()):
+                    return True
+            if isinstance(st, ast.Assign) and any(isinstance(t, ast.Name) and t.id == name for t in st.targets):
+                return any(isinstance(g, ast.Global) and name in g.names for g in ast.walk(reset))
+            return False
+        ok = _always(reset.body, is_reset)
+        ctx.ob('DERIVED-STATE', loc, 'module-level table `%s` (filled by %s) is cleared or rebuilt on every path through reset_units' % (name, ', '.join(sorted(fs))), ok,
+               'some path changes the working units and keeps entries computed under the old ones', node=conts[name], key='reset ' + name)
+    ctx.floor('DERIVED-STATE', n, 1)
+
+
 def run(ctx):
+    _MOD[0] = ctx.mod(UC)
     ctx.explanation = ('C09: reset_units is evaluated over the monomial algebra of the four base units for all 29 admissible named choices and each chosen unit must come out as 1; '
                        'the LAMMPS style table strings are parsed by an independent grammar and typed by dimension and SI magnitude; set/get are inverse for the same factor; '
                        'the reduction half of parse() is extracted and compared with ordinary precedence on all operator patterns up to four operators; tokenizer structure; model keys. '
                        'Not decided: floating-point round-trip identity, random working-unit seeds.')
-    ctx.run_rules([working_units, style_tables, inverse_pair, precedence, model_keys])
+    ctx.run_rules([working_units, style_tables, inverse_pair, precedence, model_keys, derived_state])
